@@ -675,26 +675,36 @@ class TensorDiagram:
 
         # One or both nodes were not found in the diagram
         else:
-            # Second step: Add new nodes to nodes and free indices list
+            # Second step: Determine the free indices of new nodes, the nodes are only added once the edge is valid
             if source_index is None:
-                source_index = len(self._nodes)
-                free_source = self.add_node(source)[0]
+                free_source = list(source._covariant_indices)
 
             if target_index is None:
-                target_index = len(self._nodes)
-                free_target = self.add_node(target)[1]
+                free_target = list(target._contravariant_indices)
 
         if len(free_source) == 0 or len(free_target) == 0:
             raise TensorComputationError("Could not add the edge because no indices are left.")
 
         # Third step: Pick some free indices
-        i = free_source.pop(0)
-        j = free_target.pop(0)
+        i = free_source[0]
+        j = free_target[0]
 
         if source.shape[i] != target.shape[j]:
             raise TensorComputationError(
                 f"Dimension of tensors is inconsistent, encountered dimensions {source.shape[i]} and {target.shape[j]}."
             )
+
+        # Fourth step: The edge is valid, add new nodes to nodes and free indices list and use up the indices
+        if source_index is None:
+            source_index = len(self._nodes)
+            free_source = self.add_node(source)[0]
+
+        if target_index is None:
+            target_index = len(self._nodes)
+            free_target = self.add_node(target)[1]
+
+        free_source.pop(0)
+        free_target.pop(0)
 
         self._contraction_list.append((source_index, target_index, i, j))
 
